@@ -11,6 +11,9 @@ CHECKS = {
  "C02": dict(cat="exploration", tech="bounded-exhaustive enumeration of table x point x derivative-request spaces against the long-double derivative recursion",
    text="The C01 table and point-class spaces for 1..7 dimensions; at every point every derivative bitmask (all subsets up to 4 dimensions), every lane of value+gradient in both precisions, the C gradient wrapper and ndsplineeval_deriv with per-axis derivative orders 0..order+1 (full cross product up to 2 dimensions) are compared with the exact partial derivative of the reference spline; orders above the spline order must give exactly 0. Two defects found this way are listed as known findings (exactly-on-knot cases), one was repaired.",
    note="trusted: ref/bspline_ref.hpp derivative recursion and pre-cancellation magnitude for the tolerance", ref="4/C02"),
+ "C03": dict(cat="exploration", tech="bounded-exhaustive enumeration of (dimension, order pattern, point) x entry points, memcmp across evaluation paths in four build variants",
+   text="For every dimension count 1..9 and every order pattern of the alphabet (all k, the two known mixed patterns and near misses, patterns served by the per-dimension specialisation, seeded mixed ones) the generic members, the evaluator object (core identified by address), its call operator, the table call operator and the C wrappers are compared bit for bit on centres, values, derivatives, every gradient lane and arbitrary derivatives, at structural and seeded points, in both precisions, in builds with and without PHOTOSPLINE_NO_EVAL_TEMPLATES at the library's PUBLIC flags and under ASan; every dispatch family must have been exercised.",
+   note="trusted: g++ 12 code generation at the stated flags; memcmp oracle needs no reference", ref="4/C03"),
  "C04": dict(cat="exploration", tech="bounded-exhaustive enumeration of knot vectors x coordinate classes against an independent acceptance/bracketing specification",
    text="Complete walk of orders x knot patterns x knot counts x magnitude transforms (1e300, 1e-300, negated, consecutive denormals, +1e15) x every structural coordinate class (each knot, both float neighbours, interval points, the first knot, outside neighbours, +-inf, +-DBL_MAX, +-denormal, +-0) in 1 dimension and the full tensor of six classes per axis in 2..4 dimensions; acceptance, index range, bracketing, margin clamping, the C wrapper and operator() are checked on every case, termination by a per-case timer.",
    note="trusted: the specification predicate written in the harness; NaN excluded by the property itself", ref="4/C04"),
